@@ -467,3 +467,365 @@ Proof.
   - rewrite (run_exited rc _ s6 1 F2). rewrite F1, F2, F3, E1, E4, D1, T3, D5, W3.
     rewrite app_nil_r, <- !app_assoc. repeat split; eauto.
 Qed.
+
+(* ---- the description as a specification: platform extensions add no commands ------------------------ *)
+Lemma stubs_app a b : stubs (a ++ b) = stubs a ++ stubs b.
+Proof. unfold stubs. apply flat_map_app. Qed.
+
+Lemma per_rank_app a b r : per_rank_cmds (a ++ b) r = per_rank_cmds a r ++ per_rank_cmds b r.
+Proof. unfold per_rank_cmds. apply flat_map_app. Qed.
+
+Lemma mapi_lookup_stubs (f : list Z -> bytes) key r : forall gl i,
+  stubs (match zlookup r (mapi_from i (fun r g => (r, [CExport key (f g)])) gl) with
+         | Some cs => cs | None => [] end) = [].
+Proof.
+  induction gl as [|g gl IH]; intro i; [reflexivity|].
+  simpl. destruct (r =? i); [reflexivity|apply IH].
+Qed.
+
+Lemma pre_stubs_eq c t r : stubs (per_rank_cmds (ext_pre c t) r) = pre_stubs c t r.
+Proof.
+  unfold pre_stubs, desc_pre, ext_pre. rewrite !per_rank_app, !stubs_app.
+  replace (stubs (per_rank_cmds (if t_omp t then _ else []) r)) with (@nil (Z * Z))
+    by (destruct (t_omp t); reflexivity).
+  match goal with |- context [per_rank_cmds (if ?b then [EPer ?m] else []) r] =>
+    replace (stubs (per_rank_cmds (if b then [EPer m] else []) r)) with (@nil (Z * Z)) end.
+  - reflexivity.
+  - destruct (negb (t_gpr_q t =? 0) && t_cuda t && match t_gpus t with [] => false | _ => true end);
+      [|reflexivity].
+    unfold per_rank_cmds. simpl flat_map. rewrite app_nil_r. symmetry. apply mapi_lookup_stubs.
+Qed.
+
+(* ---- trace functions on the shape rank_spec gives ------------------------------------------------------ *)
+Lemma n_exec_app a b : n_exec (a ++ b) = (n_exec a + n_exec b)%nat.
+Proof. unfold n_exec. now rewrite filter_app, app_length. Qed.
+
+Lemma n_exec_quiet q : forallb quiet_ev q = true -> n_exec q = 0%nat.
+Proof.
+  induction q as [|e q IH]; intro H; [reflexivity|]. simpl in H. apply andb_true_iff in H as [He Hq].
+  unfold n_exec in *. simpl. destruct e; try discriminate He; simpl; auto.
+Qed.
+
+Lemma n_exec_cmds l : n_exec (map ECmd l) = 0%nat.
+Proof. induction l; simpl; auto. Qed.
+
+(* ---- the clauses of the oracle hold on what the model predicts for a rank ------------------------------- *)
+Section RankClauses.
+  Variables (c : cfg) (l : lm) (t : task) (rcs : list Z) (r : Z) (s0 : st) (ep : list stmt).
+  Hypothesis W : wfb c t = true.
+  Hypothesis Hep : exec_prog c l t = inr ep.
+  Hypothesis Hs0 : s_exit s0 = None.
+  Hypothesis Htr0 : s_tr s0 = [].
+  Hypothesis Hp0 : s_probe s0 = None.
+  Hypothesis Hrdy : ready l r s0.
+  Hypothesis Hr : 0 <= r < t_ranks t.
+
+  Let s' := run (nth_rc rcs r) ep s0.
+
+  Lemma rank_exit_code : exit_code s' = want_rank_rc c t rcs r.
+  Proof.
+    destruct (rank_spec c l t (nth_rc rcs r) r s0 ep W Hep Hs0 Htr0 Hp0 Hrdy Hr) as (qA & _ & _ & E & _).
+    fold s' in E. unfold exit_code. rewrite E. rewrite pre_stubs_eq. unfold want_rank_rc, post_stubs.
+    destruct (all_ok (pre_stubs c t r)); simpl; [|reflexivity].
+    destruct (all_ok (stubs (per_rank_cmds (t_post t) r))); reflexivity.
+  Qed.
+
+  Lemma rank_okr_rc : okr_rc c t rcs r (robs_of s') = true.
+  Proof. unfold okr_rc, robs_of. simpl. rewrite rank_exit_code. apply Z.eqb_refl. Qed.
+
+  Lemma rank_okr_argv : okr_argv t r (robs_of s') = true.
+  Proof.
+    destruct (rank_spec c l t (nth_rc rcs r) r s0 ep W Hep Hs0 Htr0 Hp0 Hrdy Hr) as (qA & _ & _ & _ & P).
+    fold s' in P. unfold okr_argv, robs_of. simpl.
+    destruct (all_ok (stubs (per_rank_cmds (ext_pre c t) r))).
+    - destruct P as [e P]. rewrite P.
+      apply (proj2 (eqb_list_spec bytes_eqb bytes_eqb_eq _ _)). reflexivity.
+    - now rewrite P.
+  Qed.
+
+  (* (a rank only runs when the launch script got past pre_launch) *)
+  Lemma rank_okr_pre_blocks : launched t = true -> okr_pre_blocks c t r (robs_of s') = true.
+  Proof.
+    intro HL.
+    destruct (rank_spec c l t (nth_rc rcs r) r s0 ep W Hep Hs0 Htr0 Hp0 Hrdy Hr) as (qA & Q & T & _ & P).
+    fold s' in T, P. unfold okr_pre_blocks, robs_of. simpl. rewrite pre_stubs_eq in *. rewrite HL.
+    destruct (all_ok (pre_stubs c t r)); [reflexivity|].
+    simpl. rewrite P, T, app_nil_r.
+    now rewrite n_exec_app, (n_exec_quiet qA Q), n_exec_cmds.
+  Qed.
+
+  (* unless a pre command failed the executable ran, exactly once *)
+  Lemma rank_okr_runs : okr_runs c t r (robs_of s') = true.
+  Proof.
+    destruct (rank_spec c l t (nth_rc rcs r) r s0 ep W Hep Hs0 Htr0 Hp0 Hrdy Hr) as (qA & Q & T & _ & P).
+    fold s' in T, P. unfold okr_runs, robs_of. simpl. rewrite pre_stubs_eq in *.
+    destruct (all_ok (pre_stubs c t r)); [|now rewrite andb_false_r].
+    destruct P as [e P]. rewrite P, T.
+    rewrite !n_exec_app, (n_exec_quiet qA Q), !n_exec_cmds.
+    destruct (all_ok (stubs (per_rank_cmds (t_post t) r))); simpl; now rewrite orb_true_r.
+  Qed.
+End RankClauses.
+
+(* ---- order and per-rank clauses ------------------------------------------------------------------------- *)
+Definition noex (a : list event) : Prop := forallb (fun e => negb (is_exec e)) a = true.
+
+Lemma noex_quiet q : forallb quiet_ev q = true -> noex q.
+Proof.
+  unfold noex. induction q as [|e q IH]; intro H; [reflexivity|]. simpl in *.
+  apply andb_true_iff in H as [He Hq]. rewrite (IH Hq). destruct e; try discriminate He; reflexivity.
+Qed.
+
+Lemma noex_cmds l : noex (map ECmd l).
+Proof. unfold noex. induction l; simpl; auto. Qed.
+
+Lemma noex_app a b : noex a -> noex b -> noex (a ++ b).
+Proof. unfold noex. intros. rewrite forallb_app. now rewrite H, H0. Qed.
+
+Lemma before_noex a : noex a -> forall b, before_exec (a ++ b) = a ++ before_exec b.
+Proof.
+  unfold noex. induction a as [|e a IH]; intros H b; [reflexivity|]. simpl in *.
+  apply andb_true_iff in H as [He Ha]. apply negb_true_iff in He. rewrite He. now rewrite IH.
+Qed.
+
+Lemma after_noex a : noex a -> forall b, after_exec (a ++ b) = after_exec b.
+Proof.
+  unfold noex. induction a as [|e a IH]; intros H b; [reflexivity|]. simpl in *.
+  apply andb_true_iff in H as [He Ha]. apply negb_true_iff in He. rewrite He. now apply IH.
+Qed.
+
+Lemma cmd_ids_app a b ids : cmd_ids (a ++ b) ids = cmd_ids a ids ++ cmd_ids b ids.
+Proof. unfold cmd_ids. apply flat_map_app. Qed.
+
+Lemma cmd_ids_quiet q ids : forallb quiet_ev q = true -> cmd_ids q ids = [].
+Proof.
+  induction q as [|e q IH]; intro H; [reflexivity|]. simpl in *.
+  apply andb_true_iff in H as [He Hq]. rewrite (IH Hq). destruct e; try discriminate He; reflexivity.
+Qed.
+
+Lemma cmd_ids_prof x l ids : cmd_ids (EProf x :: l) ids = cmd_ids l ids.
+Proof. reflexivity. Qed.
+
+Lemma cmd_ids_in l ids : (forall i, In i l -> mem i ids = true) -> cmd_ids (map ECmd l) ids = l.
+Proof.
+  induction l as [|i l IH]; intro H; [reflexivity|]. simpl. rewrite (H i (or_introl eq_refl)). simpl.
+  f_equal. apply IH. intros j Hj. apply H. now right.
+Qed.
+
+Lemma cmd_ids_out l ids : (forall i, In i l -> mem i ids = false) -> cmd_ids (map ECmd l) ids = [].
+Proof.
+  induction l as [|i l IH]; intro H; [reflexivity|]. simpl. rewrite (H i (or_introl eq_refl)). simpl.
+  apply IH. intros j Hj. apply H. now right.
+Qed.
+
+Lemma mem_in i l : mem i l = true <-> In i l.
+Proof.
+  unfold mem. rewrite existsb_exists. split.
+  - intros (x & Hx & E). apply Z.eqb_eq in E. now subst.
+  - intro H. exists i. split; [exact H|apply Z.eqb_refl].
+Qed.
+
+Lemma until_fail_sub l i : In i (until_fail l) -> In i (map fst l).
+Proof.
+  induction l as [|[j rc] l IH]; simpl; [auto|].
+  destruct (rc =? 0); simpl; intros [H|H]; auto. destruct H.
+Qed.
+
+Lemma per_rank_sub es r x : In x (per_rank_cmds es r) -> In x (flat_map entry_cmds es).
+Proof.
+  induction es as [|e es IH]; [auto|]. unfold per_rank_cmds. simpl flat_map. fold (per_rank_cmds es r).
+  intro H. apply in_app_or in H as [H|H]; apply in_or_app; [left|right; auto].
+  destruct e as [c0|m]; [exact H|]. simpl.
+  destruct (zlookup r m) as [cs|] eqn:E; [|destruct H].
+  apply zlookup_in in E. apply in_map_iff in E as ([r' cs'] & E1 & E2). simpl in E1. subst cs'.
+  apply in_flat_map. exists (r', cs). auto.
+Qed.
+
+Lemma stubs_sub a b : (forall x, In x a -> In x b) -> forall y, In y (stubs a) -> In y (stubs b).
+Proof.
+  intros H y Hy. unfold stubs in *. apply in_flat_map in Hy as (x & Hx & Hy).
+  apply in_flat_map. exists x. auto.
+Qed.
+
+Definition disjoint_ids (c : cfg) (t : task) : bool :=
+  forallb (fun i => negb (mem i (all_post_ids t))) (all_pre_ids c t).
+
+Section RankOrder.
+  Variables (c : cfg) (l : lm) (t : task) (rcs : list Z) (r : Z) (s0 : st) (ep : list stmt).
+  Hypothesis W : wfb c t = true.
+  Hypothesis WI : disjoint_ids c t = true.
+  Hypothesis Hep : exec_prog c l t = inr ep.
+  Hypothesis Hs0 : s_exit s0 = None.
+  Hypothesis Htr0 : s_tr s0 = [].
+  Hypothesis Hp0 : s_probe s0 = None.
+  Hypothesis Hrdy : ready l r s0.
+  Hypothesis Hr : 0 <= r < t_ranks t.
+
+  Let s' := run (nth_rc rcs r) ep s0.
+  Let PRE := until_fail (pre_stubs c t r).
+  Let POST := until_fail (post_stubs t r).
+
+  Lemma pre_in_pre i : In i PRE -> mem i (all_pre_ids c t) = true.
+  Proof.
+    intro H. apply mem_in. apply until_fail_sub in H. unfold all_pre_ids.
+    apply in_map_iff in H as (x & <- & Hx). apply in_map.
+    unfold pre_stubs in Hx. revert Hx. apply stubs_sub. apply per_rank_sub.
+  Qed.
+
+  Lemma post_in_post i : In i POST -> mem i (all_post_ids t) = true.
+  Proof.
+    intro H. apply mem_in. apply until_fail_sub in H. unfold all_post_ids.
+    apply in_map_iff in H as (x & <- & Hx). apply in_map.
+    unfold post_stubs in Hx. revert Hx. apply stubs_sub. apply per_rank_sub.
+  Qed.
+
+  Lemma pre_not_post i : In i PRE -> mem i (all_post_ids t) = false.
+  Proof.
+    intro H. apply pre_in_pre in H. apply mem_in in H.
+    unfold disjoint_ids in WI. rewrite forallb_forall in WI. specialize (WI i H).
+    now apply negb_true_iff in WI.
+  Qed.
+
+  Lemma post_not_pre i : In i POST -> mem i (all_pre_ids c t) = false.
+  Proof.
+    intro H. apply post_in_post in H. destruct (mem i (all_pre_ids c t)) eqn:E; [|reflexivity].
+    apply mem_in in E. unfold disjoint_ids in WI. rewrite forallb_forall in WI. specialize (WI i E).
+    now rewrite H in WI.
+  Qed.
+
+  Lemma rank_trace : exists qA qZ, forallb quiet_ev qA = true /\ forallb quiet_ev qZ = true /\
+    s_tr s' = qA ++ map ECmd PRE
+              ++ (if all_ok (pre_stubs c t r)
+                  then [EProf (B "rank_start")] ++ [EExec] ++ [EProf (B "rank_stop"); EProf (B "exec_post")]
+                       ++ map ECmd POST ++ qZ
+                  else []).
+  Proof.
+    destruct (rank_spec c l t (nth_rc rcs r) r s0 ep W Hep Hs0 Htr0 Hp0 Hrdy Hr) as (qA & Q & T & _ & _).
+    fold s' in T. rewrite pre_stubs_eq in T. fold (post_stubs t r) in T.
+    exists qA, (if all_ok (post_stubs t r) then [EProf (B "exec_stop")] else []).
+    split; [exact Q|]. split; [destruct (all_ok (post_stubs t r)); reflexivity|]. exact T.
+  Qed.
+
+  (* pre_exec commands run before, post_exec commands after the executable, which runs at most once *)
+  Lemma rank_okr_order : okr_order c t r (robs_of s') = true.
+  Proof.
+    destruct rank_trace as (qA & qZ & QA & QZ & T).
+    unfold okr_order, robs_of. simpl o_tr. rewrite T.
+    pose proof (noex_quiet qA QA) as NA. pose proof (noex_cmds PRE) as NP.
+    destruct (all_ok (pre_stubs c t r)).
+    - rewrite !n_exec_app, (n_exec_quiet qA QA), !n_exec_cmds, (n_exec_quiet qZ QZ).
+      change (n_exec [EProf (B "rank_start")]) with 0%nat. change (n_exec [EExec]) with 1%nat.
+      change (n_exec [EProf (B "rank_stop"); EProf (B "exec_post")]) with 0%nat.
+      cbn [Nat.add Nat.leb andb].
+      rewrite (after_noex qA NA), (after_noex _ NP), (after_noex [EProf (B "rank_start")] eq_refl).
+      rewrite (before_noex qA NA), (before_noex _ NP), (before_noex [EProf (B "rank_start")] eq_refl).
+      cbn [app after_exec before_exec is_exec].
+      rewrite !cmd_ids_prof. rewrite !cmd_ids_app.
+      rewrite (cmd_ids_quiet [EProf (B "rank_start")] (all_post_ids t) eq_refl).
+      rewrite (cmd_ids_quiet qZ _ QZ), (cmd_ids_quiet qA _ QA).
+      rewrite (cmd_ids_out POST _ post_not_pre), (cmd_ids_out PRE _ pre_not_post). reflexivity.
+    - rewrite app_nil_r.
+      rewrite n_exec_app, (n_exec_quiet qA QA), n_exec_cmds. cbn [Nat.add Nat.leb andb].
+      rewrite <- (app_nil_r (qA ++ map ECmd PRE)) at 1.
+      rewrite (after_noex _ (noex_app _ _ NA NP)). cbn [after_exec]. change (cmd_ids [] (all_pre_ids c t)) with (@nil Z). cbn [is_nil].
+      rewrite cmd_ids_app, (cmd_ids_quiet qA _ QA), (cmd_ids_out PRE _ pre_not_post). reflexivity.
+  Qed.
+
+  (* exactly the entries for all ranks and for this rank run, in the described order, up to a failure *)
+  Lemma rank_okr_per_rank : okr_per_rank c t r (robs_of s') = true.
+  Proof.
+    destruct rank_trace as (qA & qZ & QA & QZ & T).
+    unfold okr_per_rank, robs_of. simpl o_tr.
+    assert (Body : eqb_list Z.eqb (cmd_ids (s_tr s') (all_pre_ids c t)) (until_fail (pre_stubs c t r))
+                   && eqb_list Z.eqb (cmd_ids (s_tr s') (all_post_ids t))
+                        (match n_exec (s_tr s') with O => [] | _ => until_fail (post_stubs t r) end) = true);
+      [|destruct (s_tr s'); [reflexivity|exact Body]].
+    rewrite T. fold PRE POST.
+    destruct (all_ok (pre_stubs c t r)).
+    - rewrite !n_exec_app, (n_exec_quiet qA QA), !n_exec_cmds, (n_exec_quiet qZ QZ).
+      change (n_exec [EProf (B "rank_start")]) with 0%nat. change (n_exec [EExec]) with 1%nat.
+      change (n_exec [EProf (B "rank_stop"); EProf (B "exec_post")]) with 0%nat.
+      cbn [Nat.add].
+      rewrite !cmd_ids_app.
+      rewrite (cmd_ids_quiet [EProf (B "rank_stop"); EProf (B "exec_post")] (all_pre_ids c t) eq_refl).
+      rewrite (cmd_ids_quiet [EProf (B "rank_stop"); EProf (B "exec_post")] (all_post_ids t) eq_refl).
+      rewrite (cmd_ids_quiet [EProf (B "rank_start")] (all_pre_ids c t) eq_refl).
+      rewrite (cmd_ids_quiet [EProf (B "rank_start")] (all_post_ids t) eq_refl).
+      change (cmd_ids [EExec] (all_pre_ids c t)) with (@nil Z).
+      change (cmd_ids [EExec] (all_post_ids t)) with (@nil Z).
+      rewrite !(cmd_ids_quiet qZ _ QZ), !(cmd_ids_quiet qA _ QA).
+      rewrite (cmd_ids_out POST _ post_not_pre), (cmd_ids_out PRE _ pre_not_post).
+      rewrite (cmd_ids_in PRE _ pre_in_pre), (cmd_ids_in POST _ post_in_post).
+      cbn [app]. rewrite !app_nil_r.
+      rewrite (proj2 (eqb_list_spec Z.eqb Z.eqb_eq PRE PRE) eq_refl).
+      now rewrite (proj2 (eqb_list_spec Z.eqb Z.eqb_eq POST POST) eq_refl).
+    - rewrite app_nil_r.
+      rewrite n_exec_app, (n_exec_quiet qA QA), n_exec_cmds. cbn [Nat.add].
+      rewrite !cmd_ids_app, !(cmd_ids_quiet qA _ QA).
+      rewrite (cmd_ids_out PRE _ pre_not_post), (cmd_ids_in PRE _ pre_in_pre). cbn [app].
+      now rewrite (proj2 (eqb_list_spec Z.eqb Z.eqb_eq PRE PRE) eq_refl).
+  Qed.
+End RankOrder.
+
+(* ---- RP_* variables: what both scripts export (partial: see Props/C10.v) ------------------------------- *)
+Definition rp_ids (c : cfg) (t : task) : list (bytes * bytes) :=
+  [ (B "RP_TASK_ID", t_uid t); (B "RP_TASK_NAME", name_of t); (B "RP_PILOT_ID", c_pid c);
+    (B "RP_SESSION_ID", c_sid c); (B "RP_RESOURCE", c_resource c); (B "RP_REGISTRY_ADDRESS", c_reg c) ].
+
+Lemma rp_env_exports_ids c t kv : In kv (rp_ids c t) -> In (SExportQ (fst kv) (dq (snd kv))) (rp_env c t).
+Proof.
+  unfold rp_ids, rp_env. intro H. simpl in H.
+  repeat (destruct H as [<-|H]; [simpl; tauto|]). destruct H.
+Qed.
+
+Lemma rp_env_exports_counts c t :
+  In (SExportQ (B "RP_CORES_PER_RANK") (dec (t_cpr t))) (rp_env c t) /\
+  In (SExportQ (B "RP_GPUS_PER_RANK") (fmt_gpr (t_gpr_q t))) (rp_env c t) /\
+  In (SExportQ (B "RP_CONTROL_PUB_ADDRESS") (c_pub c)) (rp_env c t) /\
+  In (SExportQ (B "RP_CONTROL_SUB_ADDRESS") (c_sub c)) (rp_env c t) /\
+  In (SExportQ (B "RP_TASK_SANDBOX") (dq (tsbox_text t))) (rp_env c t).
+Proof. unfold rp_env. simpl. tauto. Qed.
+
+Lemma rp_env_in_both c l t ep x : exec_prog c l t = inr ep -> In x (rp_env c t) ->
+  In x ep /\ In x (launch_prog c l t).
+Proof.
+  intros Hep Hx. rewrite exec_prog_eq in Hep. injection Hep as <-. split.
+  - unfold exec_body, head_prog. apply in_or_app. left. apply in_or_app. now left.
+  - unfold launch_prog. apply in_or_app. now left.
+Qed.
+
+(* on the rank that runs, RP_RANK is the rank's id when the per-rank sections are entered *)
+Lemma export_step_value rc k q s v : s_exit s = None -> bash_word (s_env s) q = Some v ->
+  lookup k (s_env (step rc (SExportQ k q) s)) = Some v.
+Proof. intros H E. unfold step. rewrite H, E. simpl. now rewrite lookup_setenv, bytes_eqb_refl. Qed.
+
+Lemma exit_code_rule_lemma :
+  forall c l t rcs r s0 ep,
+    wfb c t = true -> exec_prog c l t = inr ep ->
+    s_exit s0 = None -> s_tr s0 = [] -> s_probe s0 = None -> ready l r s0 -> 0 <= r < t_ranks t ->
+    exit_code (run (nth_rc rcs r) ep s0) = want_rank_rc c t rcs r /\
+    okr_rc c t rcs r (robs_of (run (nth_rc rcs r) ep s0)) = true.
+Proof. intros. split; [eapply rank_exit_code|eapply rank_okr_rc]; eassumption. Qed.
+
+Lemma rp_env_complete_partial_lemma :
+  forall c l t ep, exec_prog c l t = inr ep ->
+    (forall kv, In kv (rp_ids c t) ->
+       In (SExportQ (fst kv) (dq (snd kv))) ep /\ In (SExportQ (fst kv) (dq (snd kv))) (launch_prog c l t)) /\
+    (forall e v, literal v = true -> bash_word e (dq v) = Some v) /\
+    In (SExportQ (B "RP_CORES_PER_RANK") (dec (t_cpr t))) ep /\
+    In (SExportQ (B "RP_GPUS_PER_RANK") (fmt_gpr (t_gpr_q t))) ep /\
+    In (SExportQ (B "RP_CONTROL_PUB_ADDRESS") (c_pub c)) ep /\
+    In (SExportQ (B "RP_CONTROL_SUB_ADDRESS") (c_sub c)) ep /\
+    In (SExportQ (B "RP_TASK_SANDBOX") (dq (tsbox_text t))) ep.
+Proof.
+  intros c l t ep Hep.
+  destruct (rp_env_exports_counts c t) as (A & B0 & C & D & E).
+  repeat split.
+  - apply (rp_env_in_both c l t ep _ Hep). now apply rp_env_exports_ids.
+  - apply (rp_env_in_both c l t ep _ Hep). now apply rp_env_exports_ids.
+  - exact literal_roundtrip.
+  - now apply (rp_env_in_both c l t ep _ Hep).
+  - now apply (rp_env_in_both c l t ep _ Hep).
+  - now apply (rp_env_in_both c l t ep _ Hep).
+  - now apply (rp_env_in_both c l t ep _ Hep).
+  - now apply (rp_env_in_both c l t ep _ Hep).
+Qed.
